@@ -95,7 +95,22 @@ class _NoProtocol:
 
 @core.builder('nonlink')
 def _b_nonlink(step, env):
-    return {'none': None, 'int': 5, 'object': _NoProtocol()}[step['what']]
+    what = step['what']
+    if what == 'callable2':
+        def two(row, factor=10):
+            row['a'] = factor
+        return two
+    if what == 'callable0':
+        return lambda: None
+    if what == 'callable-badname':
+        def bad(record):
+            return record
+        return bad
+    if what == 'partial2':
+        def three(a, rows, tag='x'):
+            yield from rows
+        return functools.partial(three, 1)
+    return {'none': None, 'int': 5, 'object': _NoProtocol()}[what]
 
 
 @core.fn('e1_printer_sink')
@@ -190,7 +205,8 @@ BUILTINS = {
     'parallelize1': S('parallelize', {'$fn': 'e1_par_rowfunc'}, 1),
 }
 USER = {'user:%s:%s' % (r, k): {'op': 'user', 'role': r, 'kind': k} for r in ROLE_IMPL for k in KINDS}
-NONLINKS = {'nonlink:%s' % w: {'op': 'nonlink', 'what': w} for w in ('none', 'int', 'object')}
+NONLINKS = {'nonlink:%s' % w: {'op': 'nonlink', 'what': w}
+            for w in ('none', 'int', 'object', 'callable2', 'callable0', 'callable-badname', 'partial2')}
 SYMS = {}
 SYMS.update(BUILTINS)
 SYMS.update(USER)
@@ -200,7 +216,7 @@ SIGMA_FULL = list(BUILTINS) + list(USER) + list(NONLINKS)                       
 SIGMA_NOKIND = list(BUILTINS) + ['user:%s:function' % r for r in ROLE_IMPL]     # "Sigma37"
 SIGMA_ROW = ['add_field', 'delete_fields', 'rename_fields', 'filter_rows', 'set_type', 'unpivot', 'duplicate',
              'concatenate', 'sort_rows', 'user:row_inplace:function', 'user:rows:function',
-             'user:package:function']                                              # "Sigma12"
+             'user:package:function', 'gen150']                                    # "Sigma12" + a one-shot generator source
 FILE_WRITERS = {'dump_to_path', 'dump_to_path_json', 'stream', 'checkpoint'}
 UNORDERED_SYMS = set()
 
